@@ -120,6 +120,19 @@ func runC17(c *Ctx) {
 			if f == "none" && !bytes.Equal(out, plain) {
 				c.report("reject-none-changes-rendering", doc, fam, "", nil, nil)
 			}
+			if f != "" && f != "none" {
+				// the hypothesis of the whole-page theorem (render_no_rejected_start_tag): no name candidate straddles
+				// a verbatim-copied source slice and what is written next. A parser tree that fails it is outside
+				// the theorem's reach (reported, since the property is then only covered by the tokenizer oracle).
+				for ri, rb := range res.roots {
+					cfg := renderCfg{filter: f, soft: cm.SoftBreakBehavior(idx % 3), ignoreRaw: false}
+					op := fmt.Sprintf("seams\t%d\t%s\t%s\t%s\t%s\t%s\t%s", int(cfg.soft), b01(cfg.ignoreRaw), filterWire(f), hx(rb.Source), wireRoot(rb), refMapWire(res.refs), extWire(rb.Source, rb.AsNode()))
+					ri := ri
+					orc.Add(op, "ok", func(got string) {
+						c.report("whole-page-theorem-hypothesis-rawSeamsOK-fails-on-parser-tree", doc, fam, fmt.Sprintf("root %d predicate %s: %s", ri, f, got), nil, nil)
+					})
+				}
+			}
 			if rejectsAllRawText(f) {
 				orc.Add("tok\t"+filterWire(f)+"\t"+hx(out), "-", func(got string) {
 					c.report("rejected-start-tag-in-rendering", doc, fam, "", func(x []byte) bool {
